@@ -7,6 +7,14 @@ CHECKS = {
    technique='bounded exhaustive enumeration of operand pairs on the real template (all 2^16 pairs per 8-bit type; all 2^32 per 16-bit type in thorough; full boundary-lattice cross product for wider types) against __int128 arithmetic',
    text='Every operand pair of the 8-bit (quick) and 16-bit (thorough) instantiations of mp::SafeInt and the complete cross product of a boundary lattice for 32/64-bit types is executed on the real code under UBSan and compared with exact __int128 arithmetic; the converting constructor is enumerated over all (U,T) pairs of ten integer types.',
    note='Trusts __int128 arithmetic of the compiler and UBSan to flag signed overflow inside the operators; 32/64-bit types are covered on a lattice (boundaries, powers of two, sqrt/quotient neighbourhoods), not on all pairs.'),
+ 'C15': dict(level='model_checking', engine='sigstep', ref='3/C15',
+   technique='stateless model checking of the real SignalHandler under a ptrace-controlled signal scheduler: a fresh child per schedule; 1..3 SIGINT/SIGTERM deliveries at every instruction boundary of the ctor, SetHandler, dtor and HandleSigInt and at phase markers; judged by a reference protocol monitor',
+   text='Every single delivery point and every pair of points (67 instruction-level and 8 phase-level in the base run, plus about 35 handler points per delivery) and all phase-level triples are executed on the real code; thorough adds all triples with at least two phase-level points and all triples of any two points followed by a phase-level third. Each observation is checked for never-lost, pair-consistent callbacks, third-interrupt-exits and no call after destruction; violating and every 16th other schedule is replayed twice.',
+   note='Bounded to at most 3 signals, two signal numbers, the g++ -O1 x86-64 build and Linux/glibc signal() semantics; triples of three instruction-level points are not explored. A transient no-callback inside a SetHandler window is accepted. Needs ptrace (available in this sandbox).'),
+ 'C01': dict(level='exploration', engine='flat', ref='3/C01',
+   technique='bounded exhaustive enumeration of NL models (operator shapes to depth 2, sharing/canonicalisation/unary-encoding/bound-pattern families) x deviation-bounded closure of acceptance configurations x conversion-option deviations on the real reader+flattener+converter; every grid point of the original variables judged by an NL evaluator against an exhaustive auxiliary-variable search (integer enumeration + Fourier-Motzkin) over the delivered model',
+   text='Each generated model is read by the real NL reader, flattened and converted for every acceptance configuration within the deviation bound (relevant types = types actually stored in a keeper; both the API route and the acc:* option route) and for every single conversion-option deviation; for every point of the full grid of original variables NL feasibility must equal existence of auxiliary values for the delivered model, and the best delivered objective must equal the NL objective; refusals must carry a diagnostic and deliver nothing.',
+   note='Models are bounded (<=3 variables, grid step 0.5, depth<=2 shapes); acceptance configurations are explored up to 1 (quick) / 2 (thorough) deviations from "only linear rows" and 1 deviation from "everything accepted", API capability flags as presets; PL-approximated runs are outside the exact fragment and skipped; the delivered model is serialised by the library WriteJSON overloads; oracle = ref/aux_search.h cross-checked against lib/delivered.py on every run.'),
 }
 NOT_YET = {}
 def main():
